@@ -42,11 +42,21 @@ def mk_sources():
     a = magpy.magnet.Cuboid(dimension=(0.5, 0.4, 0.3), polarization=pol, position=(0.8, 0.1, -0.2))
     b = magpy.current.Circle(diameter=0.9, current=2.0, position=(-0.4, 0.3, 0.4))
     S["Collection"] = magpy.Collection(a, b, **kw)
+    # several sources of one class in ONE call (grouped evaluation): same vertex / face counts, different excitation / geometry
+    sq = [(-0.5, -0.5, 0), (0.5, -0.5, 0), (0.5, 0.5, 0), (-0.5, 0.5, 0), (-0.5, -0.5, 0)]
+    S["TwoSquares"] = magpy.Collection(magpy.current.Polyline(vertices=sq, current=1.0),
+                                       magpy.current.Polyline(vertices=sq, current=3.0, position=(0.2, 0.1, 1.5)))
+    bar = lambda L, x0: [(x0 + x * L, y * 0.5, z * 0.5) for x in (0, 1) for y in (-1, 1) for z in (-1, 1)]  # noqa: E731
+    S["TwoMeshes"] = magpy.Collection(magpy.magnet.TriangularMesh.from_ConvexHull(points=bar(2.0, -4.0), polarization=pol),
+                                      magpy.magnet.TriangularMesh.from_ConvexHull(points=bar(6.0, 0.0), polarization=(0.5, 0.1, -0.4)))
     return S
 
 
+GLOBAL_FRAME = ("Collection", "TwoSquares", "TwoMeshes")
+
+
 SIZE = {"Cuboid": 0.6, "Cylinder": 0.6, "CylinderSegment": 0.9, "Sphere": 0.55, "Tetrahedron": 0.9, "TriangularMesh": 0.6, "Dipole": 0.5,
-        "Circle": 0.65, "PolySquare": 0.7, "PolyHexagon": 0.6, "Collection": 1.0}
+        "Circle": 0.65, "PolySquare": 0.7, "PolyHexagon": 0.6, "Collection": 1.0, "TwoSquares": 0.7, "TwoMeshes": 1.0}
 
 
 def to_global(p):
@@ -101,7 +111,7 @@ def flux_case(c):
     S = mk_sources()
     src = S[c["src"]]
     size = SIZE[c["src"]]
-    center = to_global(np.array(c["center"]) * size)
+    center = to_global(np.array(c["center"]) * size) if c["src"] not in GLOBAL_FRAME else np.array(c["center"]) * size + np.array(c.get("offset", (0, 0, 0)))
     r = c["size"] * size
     vals = []
     Amag = None
@@ -179,6 +189,9 @@ def loop_points(c, S):
         elif c["src"] == "PolyHexagon":
             a, b = np.array((0.6, 0, 0.1)), np.array((0.3, 0.5, -0.1))
             p, tang = (a + b) / 2, (b - a)
+        elif c["src"] == "TwoSquares":  # around one wire of the 1 A loop
+            turns = 1 if kind == "link1" else 2
+            return circle(np.array((0.0, -0.5, 0.0)), (1.0, 0, 0), c["radius"] * size, turns=turns), 1.0 * turns
         elif c["src"] == "Collection":  # children keep their own global poses
             I = 2.0
             turns = 1 if kind == "link1" else 2
@@ -253,23 +266,26 @@ def enumerate_cases(tier):
                         cuts = size <= 3.0
                     else:
                         cuts = False
-                    if src in ("Dipole", "Circle", "PolySquare", "PolyHexagon", "Collection") and cname != "outside" and size < 3.0:
+                    if src in ("Dipole", "Circle", "PolySquare", "PolyHexagon", "Collection", "TwoSquares") and cname != "outside" and size < 3.0:
                         continue  # would pass next to the dipole position / a wire
                     if src == "Collection" and cname != "outside" and size == 3.0:
                         cuts = False
-                    if src in ("Dipole", "Circle", "PolySquare", "PolyHexagon"):
+                    if src in ("Dipole", "Circle", "PolySquare", "PolyHexagon", "TwoSquares"):
                         cuts = False
+                    if src == "TwoMeshes":
+                        cuts = cname != "outside"
                     if cuts and tier == "quick" and shape == "box":
                         continue
                     cases.append({"part": "flux", "src": src, "center": list(cen), "cname": cname, "size": size,
+                                  "offset": [3.0, 0.0, 0.0] if src == "TwoMeshes" else [0, 0, 0],
                                   "shape": "sphere" if shape == "sphere" else "box", "aspect": [1.0, 0.8, 1.3],
                                   "rot": [0, 0, 0] if shape == "box" else [0.3, 0.5, -0.2], "cuts": cuts,
                                   "panels": [4, 8] if not cuts else ([12, 24] if tier == "quick" else [24, 48])})
     for src in SIZE:
         loops = ["nolink", "pentagon"]
-        if src in ("Circle", "PolySquare", "PolyHexagon", "Collection"):
+        if src in ("Circle", "PolySquare", "PolyHexagon", "Collection", "TwoSquares"):
             loops += ["link1", "link2"]
-        if src not in ("Dipole", "Circle", "PolySquare", "PolyHexagon", "Collection"):
+        if src not in ("Dipole", "Circle", "PolySquare", "PolyHexagon", "Collection", "TwoSquares", "TwoMeshes"):
             loops += ["through", "inside"]
         for lp in loops:
             for radius in ([0.05, 0.2] if lp in ("link1", "link2", "inside") else [0.3, 0.8] if lp == "through" else [0.7]):
